@@ -7,7 +7,7 @@
    Mirrors: _member_incompatibilities (public filter, removal rule), _type_based_yield (seen_paths guard keyed on the
    (old path, new path) pair, alias branch first, kind change, dispatch), _alias_incompatibilities (AliasResolutionError
    and CyclicAliasError both skipped), _class_incompatibilities, _attribute_incompatibilities, _returns_are_compatible,
-   _function_incompatibilities (= C10's fdiff, imported), mixins.py:is_public / is_private / is_special /
+   _function_incompatibilities (= C10's fdiff_m: the table rules fdiff plus the regenerated old-side members of incompatible_kind, imported), mixins.py:is_public / is_private / is_special /
    is_imported, all_members (= inherited ++ declared), cli.py:check exit code.
 
    The traversal produces the log of processed (old, new) pairs; the reported breakages are the local
@@ -15,6 +15,8 @@
    Executable definitions only. *)
 From Coq Require Import List Arith Bool ZArith String Ascii.
 From Verif Require Import Lib.Sexp Model.C10_kinds Gen.C10_tables Model.C10_diff.
+From Verif Require Export Gen.C10_rules Model.C10_ext.
+From Verif Require Export Model.C11_base Gen.C11_ladder.
 Import ListNotations.
 Open Scope string_scope. Open Scope list_scope. Open Scope nat_scope.
 
@@ -33,11 +35,6 @@ Record node := mkNode { nname : string; npublic : option bool; nbody : body }.
 Definition store := list node.
 Definition get (g : store) (i : nat) : option node := nth_error g i.
 
-Inductive okind := KModule | KClass | KFunction | KAttribute | KAlias.
-Definition okind_eqb a b :=
-  match a, b with
-  | KModule, KModule | KClass, KClass | KFunction, KFunction | KAttribute, KAttribute | KAlias, KAlias => true
-  | _, _ => false end.
 Definition kind_of (n : node) : okind :=
   match nbody n with BModule _ _ _ => KModule | BClass _ _ _ _ => KClass | BFunction _ _ => KFunction
                    | BAttribute _ => KAttribute | BAlias _ => KAlias end.
@@ -56,27 +53,23 @@ Definition smem (n : string) (l : list string) := existsb (String.eqb n) l.
 Definition nmem (n : nat) (l : list nat) := existsb (Nat.eqb n) l.
 Definition pmem (i j : nat) (l : list (nat * nat)) := existsb (fun p => Nat.eqb (fst p) i && Nat.eqb (snd p) j) l.
 
-(* ---- mixins.py name predicates ---- *)
-Definition starts_with (p s : string) := prefix p s.
-Definition ends_with (suf s : string) :=
-  Nat.leb (String.length suf) (String.length s) &&
-  String.eqb (substring (String.length s - String.length suf) (String.length suf) s) suf.
-Definition is_special (name : string) := starts_with "__" name && ends_with "__" name.
-Definition is_private (name : string) := starts_with "_" name && negb (is_special name).
+(* ---- mixins.py: is_special / is_private / is_imported / is_public are the definitions the translator regenerates from
+   mixins.py (Gen/C11_ladder.v); the model only says what the facts they look at are for member m of parent p ---- *)
+Definition is_special (name : string) := is_special_gen name.
+Definition is_private (name : string) := is_private_gen name.
+
+Definition facts_of (p m : node) : facts :=
+  mkFacts (match npublic m with Some _ => true | None => false end)
+          (match npublic m with Some b => b | None => false end)
+          (is_alias m) (is_module m) (nname m)
+          true                                                         (* members always have a parent *)
+          (is_module p)
+          (match nbody p with BModule (Some _) _ _ => true | _ => false end)
+          (match nbody p with BModule (Some es) _ _ => smem (nname m) es | _ => false end)
+          (smem (nname m) (imports_of p)).
 
 (* mixins.py:is_public of member m whose parent is p *)
-Definition is_public (p m : node) : bool :=
-  match npublic m with
-  | Some b => b
-  | None =>
-    if negb (is_alias m) && is_module m && negb (starts_with "_" (nname m)) then true
-    else match nbody p with
-         | BModule (Some es) _ _ => smem (nname m) es      (* parent.is_module and parent.exports is not None *)
-         | _ => if is_private (nname m) then false
-                else if smem (nname m) (imports_of p) then false
-                else true
-         end
-  end.
+Definition is_public (p m : node) : bool := is_public_gen (facts_of p m).
 
 (* the ladder as the docstring of is_public words it (spec side), rule by rule:
    1 public attribute set -> its value;  (module exception: a non-underscore module is public)
@@ -128,7 +121,7 @@ Definition local_head (oi nj : node) (j : nat) : list breakage :=
        | BClass _ ob _ _, BClass _ nb _ _ =>
            if negb (natlist_eqb nb ob) && Nat.ltb (List.length nb) (List.length ob) then [BBase j] else []
        | BFunction os oret, BFunction ns nret =>
-           map (BParam j) (fdiff os ns) ++ (if returns_compatible oret nret then [] else [BReturn j])
+           map (BParam j) (fdiff_m os ns) ++ (if returns_compatible oret nret then [] else [BReturn j])
        | BAttribute ov, BAttribute nv => if odef_eqb ov nv then [] else [BValue j]
        | _, _ => []
        end.
